@@ -17,6 +17,9 @@ where
     // Defined imports: all the imported item keys + add the Android built-in (as unknown)
     let defined = keys;
 
+    #[cfg(feature = "verif-hooks")]
+    crate::verif_hooks::record_order("validate.files", lalrpop_results.keys());
+
     lalrpop_results
         .into_iter()
         .map(|(id, mut fr)| {
@@ -168,6 +171,9 @@ fn resolve_type(
     }
 
     // Unresolved type is in import path?
+    #[cfg(feature = "verif-hooks")]
+    crate::verif_hooks::record_order("resolve_type.imports", imports.iter());
+
     // Note: if several imports match, take the exact one or else the smallest one (the set has no stable order)
     if let Some(import_path) = imports
         .iter()
@@ -195,6 +201,9 @@ fn resolve_type(
         );
         return;
     }
+
+    #[cfg(feature = "verif-hooks")]
+    crate::verif_hooks::record_order("resolve_type.declared", declared_parcelables.iter());
 
     // Unresolved type is forward-declared?
     // Note: it is supposed to only work with path
@@ -268,6 +277,9 @@ fn check_imports<'a>(
             map
         });
 
+    #[cfg(feature = "verif-hooks")]
+    crate::verif_hooks::record_order("check_imports.loop", imports.keys());
+
     // - generate diagnostics for unused and unresolved imports
     for (qualified_import, import) in imports.iter() {
         if !defined.contains_key(qualified_import)
@@ -314,6 +326,9 @@ fn check_declared_parcelables(
             .fold(HashMap::new(), |mut map, declared_parcelable| {
                 let qualified_name = declared_parcelable.get_qualified_name();
 
+                #[cfg(feature = "verif-hooks")]
+                crate::verif_hooks::record_order("check_declared.imports", imports.keys());
+
                 // Note: if several imports conflict, take the first one in the file (the map has no stable order)
                 if let Some((_, conflicting_import)) = imports
                     .iter()
@@ -358,6 +373,9 @@ fn check_declared_parcelables(
                 }
                 map
             });
+
+    #[cfg(feature = "verif-hooks")]
+    crate::verif_hooks::record_order("check_declared.loop", declared_parcelables.keys());
 
     // - generate diagnostics for unrecommended usage and for unused declared parcelables
     for (qualified_import, declared_parcelable) in declared_parcelables.into_iter() {
